@@ -234,11 +234,11 @@ theorem catb_overflow (grant : Nat → Bool) (x : GA) (n : Nat) (hnn : x.nonnull
     rw [rpi_overflow 1 30 grant x (n + 1) x.len hnn (by omega)]
     simp
 
-theorem quoteDoit_ok (grant : Nat → Bool) (out : GA) (inLen esc : Nat) (hx : WF 1 out) (he : esc ≤ inLen)
-    (h : (quoteDoit grant out inLen esc).ret = true) :
-    WF 1 (quoteDoit grant out inLen esc).x ∧ storesIn (quoteDoit grant out inLen esc) ∧
-    (quoteDoit grant out inLen esc).x.len = inLen + esc + 2 ∧
-    ((quoteDoit grant out inLen esc).ub = true ↔ inLen + esc + 2 > INT_MAX) := by
+theorem quoteDoit_ok (sc : Bool) (grant : Nat → Bool) (out : GA) (inLen esc : Nat) (hx : WF 1 out) (he : esc ≤ inLen)
+    (h : (quoteDoit sc grant out inLen esc).ret = true) :
+    WF 1 (quoteDoit sc grant out inLen esc).x ∧ storesIn (quoteDoit sc grant out inLen esc) ∧
+    (quoteDoit sc grant out inLen esc).x.len = inLen + esc + 2 ∧
+    ((quoteDoit sc grant out inLen esc).ub = true ↔ (sc = true ∧ inLen + esc + 2 > INT_MAX)) := by
   unfold quoteDoit at h ⊢
   by_cases c1 : inLen * 2 ≥ U32
   · simp [c1] at h
@@ -263,6 +263,23 @@ theorem quoteDoit_ok (grant : Nat → Bool) (out : GA) (inLen esc : Nat) (hx : W
         refine ⟨⟨by simp only [e]; omega, w2, fun _ => ⟨by simp only [e]; omega, w3'.2⟩⟩, ?_, by simp only [e], by simp⟩
         intro p hp; simp at hp; subst hp; simp only; omega
       · simp [hr] at h
+
+/-- a length whose doubled size does not fit 32 bits is refused before anything is touched -/
+theorem quoteDoit_refused (sc : Bool) (grant : Nat → Bool) (out : GA) (inLen esc : Nat) (h : inLen * 2 + 2 ≥ U32) :
+    quoteDoit sc grant out inLen esc = ⟨false, out, none, [], false⟩ := by
+  unfold quoteDoit
+  by_cases c1 : inLen * 2 ≥ U32
+  · rw [if_pos c1]
+  · rw [if_neg c1, if_pos h]
+
+theorem quoteNeedReads_in (n : Nat) : ∀ i ∈ quoteNeedReads n, i < n := by
+  intro i hi
+  unfold quoteNeedReads at hi
+  by_cases c : n = 0
+  · rw [if_pos c] at hi; cases hi
+  · rw [if_neg c] at hi
+    simp only [List.mem_append, List.mem_range, List.mem_cons, List.mem_flatMap, List.not_mem_nil, or_false] at hi
+    rcases hi with (hi | hi | hi) | ⟨a, ha, hi | hi⟩ <;> omega
 
 theorem copyb_fail (grant : Nat → Bool) (x : GA) (n : Nat) (hx : WF 1 x)
     (h : (copyb grant x n).ret = false) :
